@@ -835,6 +835,12 @@ func (db *DB) readWALPageOffsets(f *os.File) (_ map[uint32]int64, lastCommit uin
 	r := NewWALReader(f)
 	if err := r.ReadHeader(); err == io.EOF {
 		return nil, 0, nil
+	} else if err != nil {
+		// A WAL whose header is not valid (bad magic, unsupported version) holds
+		// no frame SQLite would accept. Treat it like an empty WAL instead of
+		// reading frames with an unset byte order and page size.
+		log.Printf("checkpoint: ignoring wal of %q with invalid header: %s", db.name, err)
+		return nil, 0, nil
 	}
 
 	// Read the offset of the last version of each page in the WAL.
